@@ -469,6 +469,69 @@ theorem refused_run_touches_only_its_log (r : RunIn) (wf : (effective r.call).1.
     (afterLogging_wf _ wf) h
   simp [this]
 
+/-! ## how a failure is reported
+
+The property's "the failure is reported" is the exception reaching the caller (`∃ e, err = some e` in
+`failed_conversion_preserves_file`; an uncaught exception ends `antismash` with a traceback and a
+non-zero exit).  What `write_to_file` does *in addition* — log an error and re-raise with a message —
+it does for `TypeError` only, wherever it arises; the theorems below pin that behaviour down in the model
+(the correspondence compares the `logErr` event on every case), without making it part of the property:
+the unchanged code itself lets a `ValueError`/`KeyError` from a module's `to_json()` pass unlogged. -/
+
+/-- a `TypeError` raised while the JSON object is built (a module's `to_json()`, a result of the wrong
+    type) is logged and re-raised as `TypeError`, exactly like one raised by `json.dumps` -/
+theorem type_error_while_building_is_logged (r : Results) (h : Handle) (d : Dir)
+    (hc : (convertRecords 0 r.records r.results).out = .error typeError) :
+    writeToFile r h d = ⟨(convertRecords 0 r.records r.results).trace ++ [.logErr], some typeError, d⟩ := by
+  simp [writeToFile, hc]
+
+/-- any other exception passes through as it is, unlogged -/
+theorem other_error_passes_through (r : Results) (h : Handle) (d : Dir) (e : Exn)
+    (hc : (convertRecords 0 r.records r.results).out = .error e) (hne : e ≠ typeError) :
+    writeToFile r h d = ⟨(convertRecords 0 r.records r.results).trace, some e, d⟩ := by
+  have : (e == typeError) = false := by simpa using hne
+  simp [writeToFile, hc, this]
+
+/-- the error log is written exactly for the failures that surface as `TypeError` -/
+theorem logged_iff_type_error (r : Results) (h : Handle) (d : Dir) :
+    Ev.logErr ∈ (writeToFile r h d).trace ↔ (writeToFile r h d).err = some typeError := by
+  have hconv : Ev.logErr ∉ (convertRecords 0 r.records r.results).trace := fun hm => by
+    have := convertRecords_trace 0 r.records r.results _ hm
+    simp [Ev.isConversion] at this
+  cases hf : r.hasFault with
+  | false =>
+    rw [writeToFile_clean r h d hf]
+    have hemit : Ev.logErr ∉ (emit h d (expectedFull r)).1 := by cases h <;> simp [emit]
+    simp [hconv, hemit]
+  | true =>
+    cases hc : (convertRecords 0 r.records r.results).out with
+    | error e =>
+      by_cases hte : e = typeError
+      · subst hte
+        rw [type_error_while_building_is_logged r h d hc]; simp
+      · rw [other_error_passes_through r h d e hc hte]
+        simp [hconv, hte]
+    | ok mods =>
+      -- the conversion calls went through, so the fault is one `json.dumps` finds: logged `TypeError`
+      have hw : writeToFile r h d =
+          ⟨(convertRecords 0 r.records r.results).trace ++ [.logErr], some typeError, d⟩ := by
+        have hnc : callFault r.records r.results = false := by
+          cases hcf : callFault r.records r.results with
+          | false => rfl
+          | true => obtain ⟨e, he⟩ := convertRecords_err 0 _ _ hcf; rw [hc] at he; cases he
+        have hok := convertRecords_ok 0 _ _ hnc
+        unfold Results.hasFault at hf
+        rw [conversionFault_split, hnc, Bool.false_or] at hf
+        by_cases hv : valueFaults r.records r.results = true
+        · have : (List.take r.records.length r.results).any valueFault = true := hv
+          simp only [writeToFile, hok, encodeRecords_spec, this, if_true]
+        · have hv' : (List.take r.records.length r.results).any valueFault = false := by
+            simpa [valueFaults] using hv
+          have ht : r.timings.faulty = true := by simpa [hv] using hf
+          simp only [writeToFile, hok, encodeRecords_spec, hv', encode_spec, ht, if_true]
+          simp
+      rw [hw]; simp
+
 /-! ## text → bytes: nothing can fail once the target has been opened -/
 
 /-- the codec the code names, UTF-8, encodes every document `json.dumps` can produce -/
@@ -717,6 +780,9 @@ example : emitWith .ascii (.path "res.json") exDir [.str "β-lactone"] =
 example : (emitWith (fileCodec ⟨.ascii⟩) (.path "res.json") exDir [.str "β-lactone"]).2.2 = none := by decide
 example : (writeToFileIn ⟨.ascii⟩ ⟨[⟨none⟩], [[("a", .mod true (.str "Müller β"))]], .dict []⟩ (.path "res.json") exDir).err
     = none := by decide
+/-- reporting: a `TypeError` from a module's `to_json()` is logged, a `ValueError` is not; both reach the caller -/
+example : Ev.logErr ∈ (writeToFile (exResults (.raises true "TypeError")) (.path "res.json") exDir).trace := by decide
+example : Ev.logErr ∉ (writeToFile (exResults (.raises true "ValueError")) (.path "res.json") exDir).trace := by decide
 /-- orjson's integer range is a fault boundary -/
 example : (PyVal.int 18446744073709551615).faulty = false ∧ (PyVal.int 18446744073709551616).faulty = true := by
   decide
